@@ -7,6 +7,8 @@ import TabulaModel.Lemmas.PdfParse
 import TabulaModel.Lemmas.PdfCS
 import TabulaModel.Lemmas.PdfReal
 import TabulaModel.Lemmas.PdfSpell
+import TabulaModel.Lemmas.PdfDepth
+import TabulaModel.Lemmas.PdfBound
 /-!
 # C06 — PDF object syntax has one meaning for both parsers
 
@@ -17,7 +19,17 @@ with one legal spelling of every token and separator).  "For every object and
 every spelling" is "for every valid `SObj`".
 
 Helper lemmas: `Lemmas/PdfName.lean`, `PdfStr.lean`, `PdfHex.lean`,
-`PdfTok.lean`, `PdfState.lean`, `PdfParse.lean`, `PdfCS.lean`.
+`PdfTok.lean`, `PdfState.lean`, `PdfParse.lean`, `PdfCS.lean`, `PdfDepth.lean`,
+`PdfBound.lean`.
+
+Nesting limit (tabula fix a3fd154, `maxNestingDepth = 500` in core/parser.go and
+contentstream/parser.go): both parsers count the arrays and dictionaries that are open and refuse
+to open number 501.  `Obj.depth` is 0 for scalars and references and one more than the deepest
+element for a container, so an object parses iff `o.depth ≤ maxNestingDepth`: the round-trip
+theorems of stage 3 carry exactly that (decidable) hypothesis, stage 4 proves the other half
+(deeper objects are an error in BOTH parsers, nothing deeper is ever accepted) and that the
+number of simultaneously open containers - the recursion depth of the parsers - stays within the
+limit for every input whatsoever.  Instrumented models: `Model/ParserTrace.lean`.
 -/
 namespace Tabula.C06
 open Tabula.Pdf
@@ -141,20 +153,26 @@ theorem window_advance (inp : Str) (t : Token) (r : Str) (h : lexSkip (inp.lengt
   ⟨stateAt_cur_of_lex inp t r h, stateAt_next inp t r h hs, stateAt_peek inp t r h hs⟩
 
 /-- the same on bytes: `a b R` under every legal separator spelling -/
-theorem ref_lookahead_bytes (n g : Nat) (pre s1 s2 : Sep) (rest : Str)
+theorem ref_lookahead_bytes (n g : Nat) (pre s1 s2 : Sep) (rest : Str) (d : Nat)
+    (hd : d ≤ maxNestingDepth)
     (hv : (SObj.ref pre n g s1 s2).Valid false) (ht : Terminated rest) (hnr : FirstNotR rest)
     (hnra : NoRefAhead rest) :
-    parseObject 1 (stateAt ((SObj.ref pre n g s1 s2).render ++ rest)) = .ok (.ref n g, stateAt rest) :=
-  ref_bytes n g pre s1 s2 rest hv ht hnr hnra
+    parseObject 1 d (stateAt ((SObj.ref pre n g s1 s2).render ++ rest)) = .ok (.ref n g, stateAt rest) :=
+  ref_bytes n g pre s1 s2 rest d hd hv ht hnr hnra
 
 /-- `a b` (no `R`) on bytes: two integers, the second read from exactly where the first ended -/
-theorem two_ints_lookahead_bytes (a b : Int) (p1 p2 : Sep) (rest : Str)
+theorem two_ints_lookahead_bytes (a b : Int) (p1 p2 : Sep) (rest : Str) (d : Nat)
+    (hd : d ≤ maxNestingDepth)
     (h1 : (SObj.int p1 false 0 a).Valid false) (h2 : (SObj.int p2 false 0 b).Valid true)
     (ht : Terminated rest) (hnr : FirstNotR rest) (hnra : NoRefAhead rest) :
-    parseObject 1 (stateAt ((SObj.int p1 false 0 a).render ++ ((SObj.int p2 false 0 b).render ++ rest))) =
+    parseObject 1 d (stateAt ((SObj.int p1 false 0 a).render ++ ((SObj.int p2 false 0 b).render ++ rest))) =
         .ok (.int a, stateAt ((SObj.int p2 false 0 b).render ++ rest)) ∧
-      parseObject 1 (stateAt ((SObj.int p2 false 0 b).render ++ rest)) = .ok (.int b, stateAt rest) :=
-  two_ints_bytes a b p1 p2 rest h1 h2 ht hnr hnra
+      parseObject 1 d (stateAt ((SObj.int p2 false 0 b).render ++ rest)) = .ok (.int b, stateAt rest) :=
+  two_ints_bytes a b p1 p2 rest d hd h1 h2 ht hnr hnra
+
+/-- the number of open containers allowed around a token: any `d ≤ 500`, e.g. the innermost
+position the limit permits -/
+example : (500 : Nat) ≤ maxNestingDepth := by decide
 
 /-! ## Stage 3 — whole object trees and whole programs
 
@@ -166,20 +184,41 @@ unnecessary).  `so.Valid` says the spelling is legal, `so.render` are the bytes,
 object.  "∀ obj ∀ spelling" is "∀ valid so"; `every_object_has_a_spelling` shows that every
 well-formed object is `so.value` for some valid `so`, so nothing is left out. -/
 
-/-- Document-level parser: every object tree of any depth and of all nine kinds, under every legal
-spelling of every token and separator, optionally followed by white space / comments, parses back
-to exactly the tree, and the parser stands exactly behind it. -/
-theorem core_roundtrip (so : SObj) (trail : Sep) (hv : so.Valid false) (ht : SepOk trail) :
-    coreParse (so.render ++ renderSep trail) = .ok (so.value, stateAt (renderSep trail)) :=
-  core_roundtrip_spelled so trail hv ht
+/-- The nesting limit of both parsers is 500 open arrays/dictionaries. -/
+theorem nesting_limit_value : maxNestingDepth = 500 := rfl
 
-/-- … inside any context: what follows may be any bytes that end the last token and do not start
-with `R` (`parse_roundtrip` is the induction behind `core_roundtrip`). -/
-theorem core_roundtrip_in_context (so : SObj) (need : Bool) (rest : Str) (f : Nat)
-    (hv : so.Valid need) (hf : so.size ≤ f) (hterm : so.endsRegular = true → Terminated rest)
+/-- Document-level parser: every object tree of all nine kinds nested at most `maxNestingDepth`
+(= 500) deep, under every legal spelling of every token and separator, optionally followed by
+white space / comments, parses back to exactly the tree, and the parser stands exactly behind it. -/
+theorem core_roundtrip (so : SObj) (trail : Sep) (hv : so.Valid false) (ht : SepOk trail)
+    (hd : so.value.depth ≤ maxNestingDepth) :
+    coreParse (so.render ++ renderSep trail) = .ok (so.value, stateAt (renderSep trail)) :=
+  core_roundtrip_spelled so trail hv ht hd
+
+/-- the hypotheses are satisfiable at the limit itself: 500 arrays around an integer, and 250
+arrays around 250 dictionaries around a name -/
+example : (nestArr 500 (SObj.int [] true 2 (-7))).Valid false ∧
+    (nestArr 500 (SObj.int [] true 2 (-7))).value.depth ≤ maxNestingDepth := by
+  refine ⟨nestArr_valid _ _ ?_, ?_⟩
+  · simp [SObj.Valid, SepOk]
+  · rw [nestArr_depth]; decide
+example : (nestArr 250 (nestDict 250 (SObj.name [.ws 32] [.raw 65]))).Valid false ∧
+    (nestArr 250 (nestDict 250 (SObj.name [.ws 32] [.raw 65]))).value.depth ≤ maxNestingDepth := by
+  refine ⟨nestArr_valid _ _ (nestDict_valid 249 _ false ?_), ?_⟩
+  · simp [SObj.Valid, SepOk, SepUnit.Ok, NPiece.Ok, isWs, isDelim]
+  · rw [nestArr_depth, nestDict_depth]; decide
+
+/-- … inside any context: `d` containers already open, what follows may be any bytes that end the
+last token and do not start with `R` (`parse_roundtrip` is the induction behind `core_roundtrip`). -/
+theorem core_roundtrip_in_context (so : SObj) (need : Bool) (rest : Str) (f d : Nat)
+    (hv : so.Valid need) (hf : so.size ≤ f) (hd : d + so.value.depth ≤ maxNestingDepth)
+    (hterm : so.endsRegular = true → Terminated rest)
     (hnr : FirstNotR rest) (hnra : NoRefAhead rest) :
-    parseObject f (stateAt (so.render ++ rest)) = .ok (so.value, stateAt rest) :=
-  parse_roundtrip so need rest f hv hf hterm hnr hnra
+    parseObject f d (stateAt (so.render ++ rest)) = .ok (so.value, stateAt rest) :=
+  parse_roundtrip so need rest f d hv hf hd hterm hnr hnra
+
+example : 498 + (nestArr 2 (SObj.null [])).value.depth ≤ maxNestingDepth := by
+  rw [nestArr_depth]; decide
 
 /-- every well-formed object (Model/WF.lean) has a legal spelling: the quantification over valid
 `SObj` above covers every object -/
@@ -187,49 +226,206 @@ theorem every_object_has_a_spelling (o : Obj) (h : o.WF) (need : Bool) :
     ∃ so : SObj, so.Valid need ∧ so.value = o :=
   ⟨spell o, spell_valid_value o h need⟩
 
-/-- the statement in its ∀ object form: every well-formed object, written in ANY legal spelling of
-it, parses back to itself (and at least one spelling exists) -/
-theorem core_roundtrip_obj (o : Obj) (h : o.WF) :
+/-- the statement in its ∀ object form: every well-formed object nested at most `maxNestingDepth`
+deep, written in ANY legal spelling of it, parses back to itself (and at least one spelling
+exists) -/
+theorem core_roundtrip_obj (o : Obj) (h : o.WF) (hd : o.depth ≤ maxNestingDepth) :
     (∃ so : SObj, so.Valid false ∧ so.value = o) ∧
       ∀ (so : SObj) (trail : Sep), so.Valid false → so.value = o → SepOk trail →
         coreParse (so.render ++ renderSep trail) = .ok (o, stateAt (renderSep trail)) := by
   refine ⟨⟨spell o, spell_valid_value o h false⟩, ?_⟩
   intro so trail hv hval ht
-  rw [← hval]
-  exact core_roundtrip_spelled so trail hv ht
+  rw [← hval] at hd ⊢
+  exact core_roundtrip_spelled so trail hv ht hd
+
+example : (Obj.arr [.dict [([75], .arr [.int 3, .name [65]])], .null]).depth ≤ maxNestingDepth := by decide
 
 example : (SObj.arr [] [SObj.int [] true 2 (-7), SObj.real [.ws 32] ⟨false, false, [], [53]⟩,
     SObj.name [.comment [65] [13, 10]] [.raw 65]] [.ws 0]).Valid false := by
   simp [SObj.Valid, ValidList, SepOk, SepUnit.Ok, SObj.endsRegular, NPiece.Ok, RealSp.Ok, DigitStr, isWs,
     isDelim, isDigit]
 
-/-- Content-stream parser: one operand of any depth (no indirect references: they cannot occur in
-content streams) under every legal spelling. -/
-theorem cs_operand_roundtrip (so : SObj) (need : Bool) (rest : Str) (f : Nat)
+/-- Content-stream parser: one operand (no indirect references: they cannot occur in content
+streams) under every legal spelling, `d` containers already open and at most `maxNestingDepth`
+open in all. -/
+theorem cs_operand_roundtrip (so : SObj) (need : Bool) (rest : Str) (f d : Nat)
     (hv : so.Valid need) (hnr : so.noRef = true) (hf : so.size ≤ f)
+    (hd : d + so.value.depth ≤ maxNestingDepth)
     (hrest : so.endsRegular = true → Terminated rest) :
-    CS.parseOperand f (so.render ++ rest) = some (so.value, rest) :=
-  Tabula.Pdf.cs_operand_roundtrip so need rest f hv hnr hf hrest
+    CS.parseOperand f d (so.render ++ rest) = some (so.value, rest) :=
+  Tabula.Pdf.cs_operand_roundtrip so need rest f d hv hnr hf hd hrest
 
-/-- Content-stream parser: a whole program under every legal spelling; operands stay grouped with
-the operator after them (operator names incl. `'`, `"`, `T*`, `d0`; operators next to delimiters;
-booleans before `]`/`>>` and at top level; comments anywhere between tokens). -/
-theorem cs_roundtrip (ops : List SOp) (trail : Sep) (hv : ValidOps false ops) (ht : SepOk trail) :
+example : (nestDict 500 (SObj.lit [] [.raw 65])).noRef = true ∧
+    0 + (nestDict 500 (SObj.lit [] [.raw 65])).value.depth ≤ maxNestingDepth := by
+  refine ⟨nestDict_noRef _ _ rfl, ?_⟩
+  rw [nestDict_depth]; decide
+
+/-- Content-stream parser: a whole program whose operands nest at most `maxNestingDepth` deep,
+under every legal spelling; operands stay grouped with the operator after them (operator names
+incl. `'`, `"`, `T*`, `d0`; operators next to delimiters; booleans before `]`/`>>` and at top
+level; comments anywhere between tokens). -/
+theorem cs_roundtrip (ops : List SOp) (trail : Sep) (hv : ValidOps false ops) (ht : SepOk trail)
+    (hd : ∀ o ∈ ops, Obj.depthList (valueList o.operands) ≤ maxNestingDepth) :
     CS.csParse (renderOps ops ++ renderSep trail) =
       some (ops.map fun o => { op := o.op, operands := valueList o.operands }) :=
-  Tabula.Pdf.cs_roundtrip ops trail hv ht
+  Tabula.Pdf.cs_roundtrip ops trail hv ht hd
 
-/-- Both parsers give every printed operand the same value. -/
+example : ∀ o ∈ [(⟨[nestArr 500 (SObj.int [] false 0 1), SObj.lit [] [.raw 65]], [], [84, 74]⟩ : SOp)],
+    Obj.depthList (valueList o.operands) ≤ maxNestingDepth := by
+  intro o ho
+  simp only [List.mem_singleton] at ho
+  subst ho
+  simp only [valueList, Obj.depthList, nestArr_depth]
+  decide
+
+/-- Both parsers give every printed operand nested at most `maxNestingDepth` deep the same value. -/
 theorem agree_on_printed (so : SObj) (trail : Sep) (hv : so.Valid false) (hnr : so.noRef = true)
-    (ht : SepOk trail) :
+    (ht : SepOk trail) (hd : so.value.depth ≤ maxNestingDepth) :
     (∃ s, coreParse (so.render ++ renderSep trail) = .ok (so.value, s)) ∧
-      CS.parseOperand so.size (so.render ++ renderSep trail) = some (so.value, renderSep trail) := by
-  refine ⟨⟨_, core_roundtrip_spelled so trail hv ht⟩, ?_⟩
-  apply Tabula.Pdf.cs_operand_roundtrip so false (renderSep trail) so.size hv hnr (Nat.le_refl _)
+      CS.parseOperand so.size 0 (so.render ++ renderSep trail) = some (so.value, renderSep trail) := by
+  refine ⟨⟨_, core_roundtrip_spelled so trail hv ht hd⟩, ?_⟩
+  apply Tabula.Pdf.cs_operand_roundtrip so false (renderSep trail) so.size 0 hv hnr (Nat.le_refl _)
+    (by omega)
   intro _
   cases trail with
   | nil => exact Or.inl rfl
   | cons u us => exact sep_terminated (u :: us) [] ht (by simp) |> fun h => by simpa using h
+
+example : (nestArr 499 (nestDict 1 (SObj.bool [.ws 32] true))).noRef = true ∧
+    (nestArr 499 (nestDict 1 (SObj.bool [.ws 32] true))).value.depth ≤ maxNestingDepth := by
+  refine ⟨nestArr_noRef _ _ (nestDict_noRef _ _ rfl), ?_⟩
+  rw [nestArr_depth, nestDict_depth]; decide
+
+/-! ## Stage 4 — the nesting limit: the other half, agreement beyond it, bounded recursion -/
+
+/-- Document-level parser: an object tree nested DEEPER than `maxNestingDepth`, in any legal
+spelling, is an error (not a value, not end of input). -/
+theorem core_too_deep (so : SObj) (trail : Sep) (hv : so.Valid false) (ht : SepOk trail)
+    (hd : maxNestingDepth < so.value.depth) :
+    coreParse (so.render ++ renderSep trail) = .error .err :=
+  core_too_deep_spelled so trail hv ht hd
+
+example : (nestArr 501 (SObj.int [] true 2 (-7))).Valid false ∧
+    maxNestingDepth < (nestArr 501 (SObj.int [] true 2 (-7))).value.depth := by
+  refine ⟨nestArr_valid _ _ ?_, ?_⟩
+  · simp [SObj.Valid, SepOk]
+  · rw [nestArr_depth]; decide
+
+/-- … inside any context (whatever bytes follow): with `d` containers open, an object that would
+need more than `maxNestingDepth` open at once is an error. -/
+theorem core_too_deep_in_context (so : SObj) (need : Bool) (rest : Str) (f d : Nat)
+    (hv : so.Valid need) (hf : so.size ≤ f) (hd : d ≤ maxNestingDepth)
+    (hdeep : maxNestingDepth < d + so.value.depth) :
+    parseObject f d (stateAt (so.render ++ rest)) = .error .err :=
+  parse_too_deep so need rest f d hv hf hd hdeep
+
+example : (499 : Nat) ≤ maxNestingDepth ∧ maxNestingDepth < 499 + (nestDict 2 (SObj.null [.ws 32])).value.depth := by
+  rw [nestDict_depth]; decide
+
+/-- The limit is exact: a legally spelled object round-trips through the document-level parser
+if and only if it is nested at most `maxNestingDepth` deep. -/
+theorem core_roundtrip_iff (so : SObj) (trail : Sep) (hv : so.Valid false) (ht : SepOk trail) :
+    coreParse (so.render ++ renderSep trail) = .ok (so.value, stateAt (renderSep trail)) ↔
+      so.value.depth ≤ maxNestingDepth := by
+  constructor
+  · intro h
+    cases Nat.lt_or_ge maxNestingDepth so.value.depth with
+    | inl hlt => rw [core_too_deep_spelled so trail hv ht hlt] at h; cases h
+    | inr hge => exact hge
+  · exact core_roundtrip_spelled so trail hv ht
+
+/-- Content-stream parser: an operand that would need more than `maxNestingDepth` containers open
+at once is an error. -/
+theorem cs_operand_too_deep (so : SObj) (need : Bool) (rest : Str) (f d : Nat)
+    (hv : so.Valid need) (hnr : so.noRef = true) (hf : so.size ≤ f)
+    (hd : d ≤ maxNestingDepth) (hdeep : maxNestingDepth < d + so.value.depth)
+    (hrest : so.endsRegular = true → Terminated rest) :
+    CS.parseOperand f d (so.render ++ rest) = none :=
+  Tabula.Pdf.cs_operand_too_deep so need rest f d hv hnr hf hd hdeep hrest
+
+example : (nestDict 501 (SObj.lit [] [.raw 65])).noRef = true ∧
+    maxNestingDepth < 0 + (nestDict 501 (SObj.lit [] [.raw 65])).value.depth := by
+  refine ⟨nestDict_noRef _ _ rfl, ?_⟩
+  rw [nestDict_depth]; decide
+
+/-- Content-stream parser: a program one of whose operands is nested deeper than
+`maxNestingDepth` makes `Parse` fail as a whole. -/
+theorem cs_too_deep (ops : List SOp) (trail : Sep) (hv : ValidOps false ops) (ht : SepOk trail)
+    (hd : ∃ o ∈ ops, maxNestingDepth < Obj.depthList (valueList o.operands)) :
+    CS.csParse (renderOps ops ++ renderSep trail) = none :=
+  Tabula.Pdf.cs_too_deep ops trail hv ht hd
+
+example : ∃ o ∈ [(⟨[SObj.lit [] [.raw 65], nestArr 501 (SObj.int [] false 0 1)], [], [84, 74]⟩ : SOp)],
+    maxNestingDepth < Obj.depthList (valueList o.operands) := by
+  refine ⟨_, List.mem_singleton.2 rfl, ?_⟩
+  simp only [valueList, Obj.depthList, nestArr_depth]
+  decide
+
+/-- Beyond the limit the two parsers still agree: every printed operand nested deeper than
+`maxNestingDepth` is an error in both. -/
+theorem agree_on_too_deep (so : SObj) (trail : Sep) (hv : so.Valid false) (hnr : so.noRef = true)
+    (ht : SepOk trail) (hd : maxNestingDepth < so.value.depth) :
+    coreParse (so.render ++ renderSep trail) = .error .err ∧
+      CS.parseOperand so.size 0 (so.render ++ renderSep trail) = none := by
+  refine ⟨core_too_deep_spelled so trail hv ht hd, ?_⟩
+  apply Tabula.Pdf.cs_operand_too_deep so false (renderSep trail) so.size 0 hv hnr (Nat.le_refl _)
+    (Nat.zero_le _) (by omega)
+  intro _
+  cases trail with
+  | nil => exact Or.inl rfl
+  | cons u us => exact sep_terminated (u :: us) [] ht (by simp) |> fun h => by simpa using h
+
+example : (nestArr 250 (nestDict 251 (SObj.bool [.ws 32] true))).noRef = true ∧
+    maxNestingDepth < (nestArr 250 (nestDict 251 (SObj.bool [.ws 32] true))).value.depth := by
+  refine ⟨nestArr_noRef _ _ (nestDict_noRef _ _ rfl), ?_⟩
+  rw [nestArr_depth, nestDict_depth]; decide
+
+/-- Neither parser ever ACCEPTS anything deeper, whatever the bytes (legal spelling or not): a
+value returned by the document-level parser is nested at most `maxNestingDepth` deep … -/
+theorem core_accepts_within_limit (inp : Str) (o : Obj) (s : PState) (h : coreParse inp = .ok (o, s)) :
+    o.depth ≤ maxNestingDepth :=
+  core_accepts_shallow inp o s h
+
+/-- … and so is every operand of every operation returned by the content-stream parser. -/
+theorem cs_accepts_within_limit (inp : Str) (ops : List CS.Operation) (h : CS.csParse inp = some ops) :
+    ∀ op ∈ ops, ∀ x ∈ op.operands, x.depth ≤ maxNestingDepth :=
+  cs_accepts_shallow inp ops h
+
+/-- Bounded recursion (the fact property C02 needs): for EVERY input, the instrumented
+document-level parser (Model/ParserTrace.lean: the same code, also reporting the peak of `p.depth`,
+i.e. the largest number of `parseArray`/`parseDict` activations on the stack at once) computes
+exactly `coreParse`, and the peak is at most `maxNestingDepth`. -/
+theorem core_recursion_bounded (inp : Str) :
+    (coreParseT inp).1 = coreParse inp ∧ (coreParseT inp).2 ≤ maxNestingDepth :=
+  core_peak_bounded inp
+
+/-- … and the same for `contentstream.Parse` over all operands of a whole stream. -/
+theorem cs_recursion_bounded (inp : Str) :
+    (CS.csParseT inp).1 = CS.csParse inp ∧ (CS.csParseT inp).2 ≤ maxNestingDepth :=
+  cs_peak_bounded inp
+
+/-- … at every level of the recursion, from any admissible starting depth and with any fuel: the
+three functions of each recursive knot never see `p.depth` above the limit. -/
+theorem recursion_bounded_everywhere (f d : Nat) (hd : d ≤ maxNestingDepth) :
+    (∀ s, (parseObjectT f d s).1 = parseObject f d s ∧ (parseObjectT f d s).2 ≤ maxNestingDepth) ∧
+    (∀ s acc, (parseArrayT f d s acc).1 = parseArray f d s acc ∧
+      (parseArrayT f d s acc).2 ≤ maxNestingDepth) ∧
+    (∀ s acc, (parseDictT f d s acc).1 = parseDict f d s acc ∧
+      (parseDictT f d s acc).2 ≤ maxNestingDepth) ∧
+    (∀ inp, (CS.parseOperandT f d inp).1 = CS.parseOperand f d inp ∧
+      (CS.parseOperandT f d inp).2 ≤ maxNestingDepth) ∧
+    (∀ inp acc, (CS.parseArrayT f d inp acc).1 = CS.parseArray f d inp acc ∧
+      (CS.parseArrayT f d inp acc).2 ≤ maxNestingDepth) ∧
+    (∀ inp acc, (CS.parseDictT f d inp acc).1 = CS.parseDict f d inp acc ∧
+      (CS.parseDictT f d inp acc).2 ≤ maxNestingDepth) :=
+  ⟨fun s => ⟨((core_trace f).1 d s).1, ((core_trace f).1 d s).2 hd⟩,
+   fun s acc => ⟨((core_trace f).2.1 d s acc).1, ((core_trace f).2.1 d s acc).2 hd⟩,
+   fun s acc => ⟨((core_trace f).2.2 d s acc).1, ((core_trace f).2.2 d s acc).2 hd⟩,
+   fun inp => ⟨((cs_trace f).1 d inp).1, ((cs_trace f).1 d inp).2 hd⟩,
+   fun inp acc => ⟨((cs_trace f).2.1 d inp acc).1, ((cs_trace f).2.1 d inp acc).2 hd⟩,
+   fun inp acc => ⟨((cs_trace f).2.2 d inp acc).1, ((cs_trace f).2.2 d inp acc).2 hd⟩⟩
+
+example : (37 : Nat) ≤ maxNestingDepth := by decide
 
 /-- the real-number value is the number written: `normReal` keeps m / 10^s and normalises -/
 theorem real_value_meaning (m s : Nat) :
@@ -243,7 +439,7 @@ What is NOT proved, kept as the target:
 * `parsers_agree` for ALL raw byte strings — "for every input, if both parsers accept it as one
   operand, the values are equal":
       theorem parsers_agree : ∀ (inp : Str) (a b : Obj) s r, coreParse inp = .ok (a, s) →
-          CS.parseOperand (CS.fuelFor inp) inp = some (b, r) → a = b
+          CS.parseOperand (CS.fuelFor inp) 0 inp = some (b, r) → a = b
   It is proved per token class only (`parsers_agree_literal_strings`: the two string readers are
   the same function on every input; `parsers_agree_names`, `parsers_agree_hex_strings`: whenever
   the document-level reader accepts, the content-stream reader returns the same value and
